@@ -645,8 +645,13 @@ class Exec:
         if is_opaque(base):
             return ("opaque", base[1] + "[]")          # an element of an opaque collection (exceptions of the subscript itself are not covered)
         if isinstance(base, Tup):
-            k = lit(toint(self.ev(sl, st)))
+            kv = toint(self.ev(sl, st))
+            k = lit(kv)
             if k is None:
+                if base.items and all(isinstance(x, Seq) and x.kind == "nd" for x in base.items):
+                    # a list of arrays indexed at a symbolic position: SOME array of the list (content not tracked); the position must be in range
+                    self.may_raise(st, "IndexError", z3.Or(kv < -len(base.items), kv >= len(base.items)), f"index:{self.ordinal('idx')}", line)
+                    return ("opaque", "list-element")
                 raise Unsupported("symbolic index into a tuple")
             return base.items[k]
         if isinstance(base, Mat):
@@ -1281,7 +1286,16 @@ class Exec:
                 return src.n, lambda t, i, tgt: self.assign(tgt, Tup([i, src.at(i)]), t, None)
             if not isinstance(src, (Seq,)):
                 raise Unsupported("enumerate over a non-sequence")
+            self._last_iter_maxlen = getattr(src, "maxlen", None) if lit(src.n) is None else None
             return src.n, lambda t, i, tgt: self.assign(tgt, Tup([i, self.element(src, i)]), t, None)
+        if isinstance(it, ast.Call) and isinstance(it.func, ast.Name) and it.func.id == "combinations" and len(it.args) == 2 and not it.keywords:
+            rng_ = it.args[0]
+            if isinstance(rng_, ast.Call) and isinstance(rng_.func, ast.Name) and rng_.func.id == "range" and len(rng_.args) == 1 \
+                    and lit(toint(self.ev(it.args[1], st))) == 2:
+                n_ = lit(toint(self.ev(rng_.args[0], st)))
+                if n_ is not None and 0 <= n_ <= 6:          # itertools.combinations(range(n), 2): the pairs (i, j), i < j, in lexicographic order
+                    return ("unroll", [Tup([iv(a_), iv(b_)]) for a_ in range(n_) for b_ in range(a_ + 1, n_)])
+            raise Unsupported("itertools.combinations of this family")
         if isinstance(it, ast.Call) and isinstance(it.func, ast.Name) and it.func.id == "product" and len(it.args) == 1 \
                 and isinstance(it.args[0], ast.Starred) and not it.keywords:
             srcs = self.ev(it.args[0].value, st)
